@@ -208,6 +208,8 @@ class FnTx:
                     if isinstance(n.op, ast.FloorDiv):
                         return f"(Int.fdiv {a} {b})", "zint"
                 self.err(n, f"integer arithmetic on kinds {ka}, {kb}")
+            if isinstance(n.op, ast.FloorDiv) and ka == "real" and kb == "real":
+                return (f"((⌊{a} / {b}⌋ : ℤ) : ℝ)" if fl.R else f"(Float.floor ({a} / {b}))"), "real"
             op = {ast.Add: "+", ast.Sub: "-", ast.Mult: "*", ast.Div: "/"}.get(type(n.op))
             if op is None:
                 self.err(n, "binary operator")
@@ -247,6 +249,20 @@ class FnTx:
                 a, ka = self.tx(n.body)
                 self.env[nm] = saved
                 b, kb = self.tx(n.orelse)
+                if ka != kb:
+                    self.err(n, "if-expression kinds differ")
+                return f"(match {lname(nm)} with | some {lname(nm)} => {a} | none => {b})", ka
+            nt = self.none_tests(n.test)
+            if nt is not None and len(nt[0]) + len(nt[1]) == 1:
+                # `a if x is None else b` / `a if x is not None else b` with x an optional parameter
+                nm = (nt[0] or nt[1])[0]
+                k = self.env[nm][4:]
+                saved = self.env[nm]
+                some_node, none_node = (n.orelse, n.body) if nt[0] else (n.body, n.orelse)
+                b, kb = self.tx(none_node)
+                self.env[nm] = k
+                a, ka = self.tx(some_node)
+                self.env[nm] = saved
                 if ka != kb:
                     self.err(n, "if-expression kinds differ")
                 return f"(match {lname(nm)} with | some {lname(nm)} => {a} | none => {b})", ka
@@ -379,6 +395,8 @@ class FnTx:
         if isinstance(f, ast.Attribute):
             obj, ko = self.tx(f.value)
             m = f.attr
+            if m.endswith("_") and m[:-1] in ("clamp", "clamp_min", "clamp_max", "abs", "exp"):
+                m = m[:-1]            # in-place variants compute the same value
             if m == "where":
                 return self.where(self.tx(n.args[0]), (obj, ko), self.tx(n.args[1]), n)
             if m == "clamp":
